@@ -136,10 +136,26 @@ ONDISK = ["foo/bar.c", "main.c", "foo/sub/deep.c", "lib/util.h", "foo/é ü.c"]
 PREFIX = "/builds/worker"
 
 
-def cli_spellings(rng, u, root, sd, pd, safe=False):
+def inside_prefix(rng, prefix):
+    """the prefix itself re-spelt with '//' or '/./' between two of its components (same components, other text)"""
+    cut = [n for n, ch in enumerate(prefix) if ch == "/" and n > 0]
+    if not cut:
+        return prefix + "/."
+    n = rng.choice(cut)
+    return prefix[:n] + rng.choice(["//", "/./", "/.//"]) + prefix[n + 1:]
+
+
+def flip_first(k):
+    return (k[0].lower() if k[0].isupper() else k[0].upper()) + k[1:]
+
+
+def cli_spellings(rng, u, root, sd, pd, safe=False, mapping=None):
     """(key, by_construction_path) pairs; path None when the property does not fix it.
-    safe: only spellings that fs::canonicalize resolves (the file exists): add_results merges them"""
-    out = [(u, u), ("./" + u, u), (u.replace("/", "//", 1) if "/" in u else "./" + u, u), (u.replace("/", "/./", 1) if "/" in u else u, u)]
+    safe: only spellings that fs::canonicalize resolves (the file exists): add_results merges them.
+    mapping: a dict that receives --path-mapping entries (key -> u) for mapped spellings of u: the record spells the key
+    exactly, or with the other case of its first letter (both directions: key upper / record lower and the converse)"""
+    out = [("./" + u, u), (u.replace("/", "//", 1) if "/" in u else "./" + u, u), (u.replace("/", "/./", 1) if "/" in u else u, u)]
+    must = [(u, u)]
     if not safe:
         out.append((u.replace("/", "\\") if "/" in u else u, u))
     if sd:
@@ -149,14 +165,27 @@ def cli_spellings(rng, u, root, sd, pd, safe=False):
             # (for a missing file this spelling is C11's known finding unresolved-dotdot-abs)
             out.append((root + "/run/../src/" + u, u))
     if pd and not safe:
-        out.append((PREFIX + "/" + u, u))
-        out.append((PREFIX + "//" + u, u))
+        out.append((pd + "/" + u, u))
+        out.append((pd + "//" + u, u))
+        # '//' and '/./' INSIDE the prefix part: the prefix is removed component-wise, not as text
+        must.append((inside_prefix(rng, pd) + "/" + u, u))
+        if rng.random() < 0.5:
+            out.append((inside_prefix(rng, pd) + rng.choice(["/", "//", "/./"]) + u, u))
+    if mapping is not None and not safe:
+        flat = u.replace("/", "_")
+        for key in rng.sample(["C:/obj/dist/include/" + flat, "gen/obj/" + flat, "Build/" + flat, "z:/w/" + flat], rng.randrange(1, 3)):
+            mapping[key] = u
+            rec = rng.choice([flip_first(key), flip_first(key), key])
+            if rng.random() < 0.25:
+                rec = rec.replace("/", "\\")                      # the record's backslashes become '/' before the lookup
+            must.append((rec, u))
     rng.shuffle(out)
     seen, res = set(), []
-    for k, p in out[:rng.randrange(1, len(out) + 1)]:
+    for k, p in must + out[:rng.randrange(0, len(out) + 1)]:
         if k not in seen:
             seen.add(k)
             res.append((k, p))
+    rng.shuffle(res)
     return res
 
 
@@ -323,6 +352,7 @@ def cli_stream(chk, n):
         branch = ci != 0 and rng.random() < 0.5
         with_filter = ci != 0 and rng.random() < 0.55
         recs, intent = [], []
+        mapping = {} if (ci != 0 and rng.random() < 0.45) else None
         if ci == 0:
             fam = [("foo/./bar.c", "foo/bar.c"), ("foo/bar.c", "foo/bar.c"), ("foo//bar.c", "foo/bar.c")]     # the witness of the former finding
         else:
@@ -331,7 +361,7 @@ def cli_stream(chk, n):
             present = [u for u in ONDISK if os.path.exists(os.path.join(root, "src", u))]
             pool = present if (safe and present) else UNDER
             for u in rng.sample(pool, min(len(pool), rng.randrange(1, 4))):
-                fam += cli_spellings(rng, u, root, sd, pd, safe and bool(present))
+                fam += cli_spellings(rng, u, root, sd, pd, safe and bool(present), mapping)
             dist["safe_cases"] += safe and bool(present)
         kinds = []
         for i, (k, p) in enumerate(fam):
@@ -362,6 +392,15 @@ def cli_stream(chk, n):
         with open(info, "w") as f:
             f.write(render_lcov(recs))
         args = [exe, info] + (["-s", sd] if sd else []) + (["-p", pd] if pd else []) + (["--branch"] if branch else [])
+        if mapping:
+            mfile = os.path.join(root, "run", "map.json")
+            with open(mfile, "w") as f:
+                json.dump(mapping, f)
+            args += ["--path-mapping", mfile]
+            dist["with_path_mapping"] += 1
+            dist["mapped_records_key_upper_record_lower"] += sum(1 for k, _ in recs if flip_first(k.replace("\\", "/")) in mapping and k[0].islower())
+            dist["mapped_records_key_lower_record_upper"] += sum(1 for k, _ in recs if flip_first(k.replace("\\", "/")) in mapping and k[0].isupper())
+        dist["records_with_respelt_prefix"] += sum(1 for k, _ in recs if pd and not k.startswith(pd + "/") and k.startswith("/builds"))
         outs = {}
         todo = [("lcov", None), ("files", None), ("covdir", None)] + ([("lcov", True), ("lcov", False)] if with_filter else [])
         for t, flt in todo:
@@ -376,7 +415,8 @@ def cli_stream(chk, n):
             outs[(t, flt)] = p.stdout
         if outs is None:
             continue
-        replay = {"kind": "oracle", "engine": "cli", "args": args[1:], "input": render_lcov(recs), "lcov": outs[("lcov", None)], "files": outs[("files", None)]}
+        replay = {"kind": "oracle", "engine": "cli", "args": args[1:], "input": render_lcov(recs), "lcov": outs[("lcov", None)], "files": outs[("files", None)],
+                  "path_mapping": mapping}
         rep = parse_lcov_full(outs[("lcov", None)])
         files = [l for l in outs[("files", None)].split("\n") if l]
         if sorted(files) != sorted(r[0] for r in rep):
@@ -452,7 +492,9 @@ def run(chk):
     d1 = engine_stream(chk, cases)
     chk.extra["distribution"] = {"engine": d1, "cli": d2}
     chk.cov["rule"] = ("(1) CLI: generated tracefiles in which 1-3 underlying files appear in up to 10 spellings each ('./', '//', '/./', backslash, absolute, "
-                       "absolute with './', absolute through '..', prefixed, prefixed with '//'), files present on disk or not, with and without -s / -p / --branch; "
+                       "absolute with './', absolute through '..', prefixed, prefixed with '//' after the prefix, prefixed with '//' or '/./' INSIDE the prefix part, and "
+                       "--path-mapping keys spelt exactly or with the other case of their first letter (key upper / record lower and the converse, also with backslashes)), "
+                       "files present on disk or not, with and without -s / -p / --path-mapping / --branch; "
                        "every input is identifiable by a key line, a function id<i> or a branch line, about a quarter of the inputs carry no DA line at all "
                        "(function-only, branch-only); reports -t lcov, files, covdir and, in about half of the cases, --filter covered and --filter uncovered "
                        "(with two spellings of one file forced to differ in status whenever two of them stay distinct map keys): every path is listed once, its "
@@ -479,7 +521,12 @@ def replay(chk, path):
         sc = vlib.scratch("cli_replay_" + chk.pid)
         with open(os.path.join(sc, "in.info"), "w") as f:
             f.write(r["input"])
-        p = vlib.sh([exe, os.path.join(sc, "in.info")] + [a for a in r["args"][1:]] + ["-t", "lcov"], cwd=sc)
+        args = [a for a in r["args"][1:]]
+        if r.get("path_mapping") and "--path-mapping" in args:
+            with open(os.path.join(sc, "map.json"), "w") as f:
+                json.dump(r["path_mapping"], f)
+            args[args.index("--path-mapping") + 1] = os.path.join(sc, "map.json")
+        p = vlib.sh([exe, os.path.join(sc, "in.info")] + args + ["-t", "lcov"], cwd=sc)
         paths = [x[0] for x in parse_lcov(p.stdout)]
         chk.count()
         if len(paths) != len(set(paths)):
